@@ -94,7 +94,7 @@ def cases(T):
     # ---- slerp endpoints (atan2 modelled exactly through sin/cos of its result; the angle itself stays unconstrained, so both sides of the
     # sinx_over_x small-angle test are explored)
     def slerp_setup(sym):
-        contracts.install(sym, sym.m); contracts.install_atan2(sym); sym.check_divzero = False
+        contracts.install(sym, sym.m); contracts.install_atan2(sym); sym.check_divzero = False; sym.atan2_angle_bound = True
     def same(a, b): return AND(*[eq(a[i], b[i]) for i in range(4)])
     def qdot(a, b): return rsum(rmul(a[i], b[i]) for i in range(4))
     notanti = lambda I: [uq(I['a']), uq(I['b']), NOT(AND(*[eq(I['a'][i], rneg(I['b'][i])) for i in range(4)]))]
